@@ -4,10 +4,21 @@
 import Mathlib.Tactic.Linarith
 import Mathlib.Tactic.NormNum
 import PdbVerif.Gen.Str
+import PdbVerif.Model.Parse
 import PdbVerif.Spec.C02
+import PdbVerif.Proofs.Str
+import PdbVerif.Proofs.Digits
+import PdbVerif.Proofs.Format
+import PdbVerif.Proofs.FormatXyz
+import PdbVerif.Proofs.FormatRoundtrip
+import PdbVerif.Proofs.Parse
+
+set_option linter.unusedVariables false
 
 namespace Props.C02
 open Py
+
+/-! ### 1. a coordinate always occupies exactly its 8 columns, or raises -/
 
 /-- A coordinate that cannot be written in 8 columns raises instead of overflowing. -/
 theorem xyz_out_of_range_raises (x : ℚ) (h : ¬ Spec.CoordInRange x) :
@@ -19,5 +30,122 @@ theorem xyz_out_of_range_raises (x : ℚ) (h : ¬ Spec.CoordInRange x) :
     push Not at hc
     exact h ⟨by linarith [hc.2], hc.1⟩
   simp only [this, ↓reduceIte, throw, throwThe, MonadExceptOf.throw]
+
+/-- Every coordinate in (−9999999.5, 99999999.5) is written, in exactly 8 columns (all four precision classes). -/
+theorem xyz_width (x : ℚ) (h : Spec.CoordInRange x) : ∃ s, Gen._format_xyz x = .ok s ∧ s.length = 8 := by
+  obtain ⟨s, h1, h2, _⟩ := Proofs.Xyz.xyz_ok x h
+  exact ⟨s, h1, h2⟩
+
+example : Spec.CoordInRange (19999991 / 20000) ∧ Spec.CoordInRange (-(1999 / 2)) ∧ Spec.CoordInRange (-(1 / 2500)) ∧
+    Spec.CoordInRange (9999996 / 100) ∧ ¬ Spec.CoordInRange (199999999 / 2) := by
+  unfold Spec.CoordInRange; norm_num
+
+/-! ### 2. precision -/
+
+/-- three decimals throughout the usual range (−999.5, 9999.5) -/
+theorem xyz_precision (x : ℚ) (h1 : -(1999 : ℚ) / 2 < x) (h2 : x < (19999 : ℚ) / 2) :
+    Gen._format_xyz x = .ok (fmtFloatR 8 3 x) ∧ Spec.decimalsOf (strip (fmtFloatR 8 3 x)) = 3 := by
+  have hr : Spec.CoordInRange x := by constructor <;> linarith
+  have := Proofs.Xyz.format_xyz_eq x hr
+  rw [Proofs.Xyz.class_usual x h1 h2] at this
+  exact ⟨this, by rw [strip_fmtFloatR, Proofs.Xyz.decimalsOf_fmtFixed]⟩
+
+/-- in general: the field is `'{:>8.kf}'` with `k` at least the number of decimals the property demands
+    (as many as fit in 8 columns, one fewer tolerated within half a unit of a power of ten), and it denotes `x`
+    to within half a unit of its last digit -/
+theorem xyz_precision_general (x : ℚ) (h : Spec.CoordInRange x) :
+    ∃ k need, Gen._format_xyz x = .ok (fmtFloatR 8 k x) ∧ Spec.decimalsOf (strip (fmtFloatR 8 k x)) = k ∧
+      Spec.neededDecimals x = some need ∧ need ≤ k ∧ Spec.coordOK x (fmtFloatR 8 k x) = true := by
+  obtain ⟨need, hn, hle⟩ := Proofs.Xyz.needed_le x h
+  exact ⟨_, need, Proofs.Xyz.format_xyz_eq x h, by rw [strip_fmtFloatR, Proofs.Xyz.decimalsOf_fmtFixed], hn, hle,
+    Proofs.Xyz.coordOK_xyz x h⟩
+
+/-! ### 3. printing and reading are inverse -/
+
+/-- `int(line[a:b])` of a right-aligned `str(i)` is `i`, for every integer and width -/
+theorem int_roundtrip (w : Nat) (i : Int) : parseInt (rjust w (intStr i)) = .ok i := parseInt_rjust_intStr w i
+
+/-- `float(line[a:b])` of `'{:>w.kf}'.format(x)` is `x` rounded half-even to `k` decimals, exactly -/
+theorem float_roundtrip (w k : Nat) (x : ℚ) : parseFloat (strip (fmtFloatR w k x)) = .ok (Py.round x k) := by
+  rw [strip_fmtFloatR, parseFloat_fmtFixed]
+
+/-- … which is within half a unit of the last printed digit of `x` -/
+theorem round_within_half_unit (x : ℚ) (k : Nat) : |Py.round x k - x| ≤ Spec.halfUnit k := Proofs.Xyz.round_err x k
+
+/-- padding a text without blanks at its ends and stripping gives the text back, for all three alignments -/
+theorem strip_pad (w : Nat) (s : Str) (h : strip s = s) :
+    strip (rjust w s) = s ∧ strip (ljust w s) = s ∧ strip (center w s) = s := by
+  rw [strip_rjust, strip_ljust, strip_center, h]; exact ⟨rfl, rfl, rfl⟩
+
+example : strip "CA".toList = "CA".toList := by decide
+
+/-! ### 4. the line -/
+
+/-- Every row whose values fit their field widths is written as a line of exactly 80 columns … -/
+theorem line_width (a : Atom) (hf : Spec.Fits a) (hx : Spec.CoordInRange a.x) (hy : Spec.CoordInRange a.y)
+    (hz : Spec.CoordInRange a.z) : ∃ l, Gen.data2pdb_line a = .ok l ∧ l.length = 80 :=
+  ⟨_, Proofs.Line.export_eq a hf hx hy hz, Proofs.Line.line_length (Proofs.Line.export_wf a hf hx hy hz)⟩
+
+/-- … with every attribute in its wwPDB columns: record name 1–6, serial 7–11, name 13–16 (aligned by the documented
+    rule), altLoc 17, resName 18–20, chain 22, resSeq 23–26, iCode 27, x 31–38, y 39–46, z 47–54 (8 columns, enough
+    decimals, value to half a unit), occupancy 55–60, B-factor 61–66 (within 0.005), element 77–78, blanks elsewhere. -/
+theorem line_columns (a : Atom) (hf : Spec.Fits a) (hx : Spec.CoordInRange a.x) (hy : Spec.CoordInRange a.y)
+    (hz : Spec.CoordInRange a.z) : ∃ l, Gen.data2pdb_line a = .ok l ∧ l.length = 80 ∧ Spec.lineFailures a l = [] :=
+  ⟨_, Proofs.Line.export_eq a hf hx hy hz, Proofs.Line.line_length (Proofs.Line.export_wf a hf hx hy hz),
+    Proofs.Line.lineFailures_nil a hf hx hy hz⟩
+
+/-- a coordinate out of range makes the whole line raise -/
+theorem line_out_of_range_raises (a : Atom) (hf : Spec.Fits a)
+    (h : ¬ Spec.CoordInRange a.x ∨ ¬ Spec.CoordInRange a.y ∨ ¬ Spec.CoordInRange a.z) :
+    Gen.data2pdb_line a = .error .valueError := by
+  have n1 := hf.2.2.2.2.1
+  have n4 := hf.2.2.2.2.2.1
+  unfold Gen.data2pdb_line
+  simp only [Proofs.Line.atomname_nameField a n1 n4, bind, Except.bind]
+  by_cases hx : Spec.CoordInRange a.x
+  · rw [Proofs.Xyz.format_xyz_eq _ hx]
+    by_cases hy : Spec.CoordInRange a.y
+    · rw [Proofs.Xyz.format_xyz_eq _ hy]
+      have hz : ¬ Spec.CoordInRange a.z := by tauto
+      simp only [xyz_out_of_range_raises _ hz]
+    · simp only [xyz_out_of_range_raises _ hy]
+  · simp only [xyz_out_of_range_raises _ hx]
+
+/-- a concrete row with a 5-digit serial, negative resSeq, altLoc, iCode, a coordinate just below a switch
+    threshold and a negative one -/
+def demo : Atom :=
+  { serial := 99999, name := "CA".toList, altLoc := "B".toList, resName := "ALA".toList, chainID := "A".toList,
+    resSeq := -999, iCode := "C".toList, x := 99994996 / 10000, y := -(9995 / 10), z := -(4 / 10000),
+    occ := 1, temp := 1038 / 100, element := "C".toList, model := 0 }
+
+theorem demo_fits : Spec.Fits demo ∧ demo.chainID ≠ [] ∧
+    Spec.CoordInRange demo.x ∧ Spec.CoordInRange demo.y ∧ Spec.CoordInRange demo.z := by
+  unfold Spec.Fits Spec.CoordInRange demo
+  refine ⟨⟨by norm_num, by norm_num, by norm_num, by norm_num, by decide, by decide, by decide, by decide, by decide,
+    by decide, by decide, by decide, by decide, by decide, by decide, by decide, by decide, by decide, by decide,
+    by norm_num, by norm_num, by norm_num, by norm_num, by decide, by decide, by decide, by decide, by decide,
+    by decide⟩, by decide, by norm_num, by norm_num, by norm_num⟩
+
+/-! ### 5. the round trip -/
+
+/-- Reading the written line back (the record loop of C01 applied to it) gives the original row: text and integer
+    attributes identical, every coordinate within half a unit of the precision it was printed with
+    (`kx ky kz` decimals), occupancy and B-factor within 0.005.  (A blank chain cannot be read back — C01 demands that
+    to raise — hence `a.chainID ≠ []`.) -/
+theorem roundtrip (a : Atom) (hf : Spec.Fits a) (hch : a.chainID ≠ [])
+    (hx : Spec.CoordInRange a.x) (hy : Spec.CoordInRange a.y) (hz : Spec.CoordInRange a.z) :
+    ∃ b kx ky kz, (Gen.data2pdb_line a >>= fun l => Model.parseAtomLine l a.model) = .ok b.toRow ∧
+      Gen._format_xyz a.x = .ok (fmtFloatR 8 kx a.x) ∧ Gen._format_xyz a.y = .ok (fmtFloatR 8 ky a.y) ∧
+      Gen._format_xyz a.z = .ok (fmtFloatR 8 kz a.z) ∧
+      Spec.readBackOK a b kx ky kz = true := by
+  refine ⟨Proofs.Line.readBack a, _, _, _, ?_, Proofs.Xyz.format_xyz_eq _ hx, Proofs.Xyz.format_xyz_eq _ hy,
+    Proofs.Xyz.format_xyz_eq _ hz, Proofs.Line.readBackOK_export a⟩
+  rw [Proofs.Line.export_eq a hf hx hy hz]
+  show Model.parseAtomLine _ _ = _
+  rw [Proofs.Parse.parseAtomLine_eq, Proofs.Line.parseRecord_export a hf hch hx hy hz]
+  rfl
+
+example :=
+  roundtrip demo demo_fits.1 demo_fits.2.1 demo_fits.2.2.1 demo_fits.2.2.2.1 demo_fits.2.2.2.2
 
 end Props.C02
